@@ -30,11 +30,11 @@ ROOTS = {
     "gmm.init": ("gmm:GMMMachine.initialize_gaussians", {"data": "U [N,D]"}, True, (False, True), None),
     "gmm.acc_stats": ("gmm:GMMMachine.acc_stats", {"X": "U [N,D]"}, True, (False,), None),
     # ---- k-means -------------------------------------------------------------------------------------
-    "km.fit": ("kmeans:KMeansMachine.fit", {"X": "U [N,D]"}, True, (False, True), None),
-    "km.varw": ("kmeans:KMeansMachine.get_variances_and_weights_for_each_cluster", {"data": "U [N,D]"}, True, (False, True), None),
-    "km.transform": ("kmeans:KMeansMachine.transform", {"X": "U [N,D]"}, True, (False, True), "U2 [C,N]"),
-    "km.transform1": ("kmeans:KMeansMachine.transform", {"X": "U [D]"}, True, (False,), "U2 [C,?]"),
-    "km.predict": ("kmeans:KMeansMachine.predict", {"X": "U [N,D]"}, True, (False, True), None),
+    "km.fit": ("kmeans:KMeansMachine.fit", {"X": "U eqv [N,D]"}, True, (False, True), None),
+    "km.varw": ("kmeans:KMeansMachine.get_variances_and_weights_for_each_cluster", {"data": "U eqv [N,D]"}, True, (False, True), None),
+    "km.transform": ("kmeans:KMeansMachine.transform", {"X": "U eqv [N,D]"}, True, (False, True), "U2 inv [C,N]"),
+    "km.transform1": ("kmeans:KMeansMachine.transform", {"X": "U eqv [D]"}, True, (False,), "U2 [C,?]"),
+    "km.predict": ("kmeans:KMeansMachine.predict", {"X": "U eqv [N,D]"}, True, (False, True), None),
     # ---- linear scoring --------------------------------------------------------------------------------
     "ls.norm": ("linear_scoring:linear_scoring", {"models_means": "U [M,C,D]", "ubm": "obj:GMMMachine", "test_stats": ST, "test_channel_offsets": "U [K,C,D]", "frame_length_normalization": "true"}, True, (None,), "1 [M,K]"),
     "ls.raw": ("linear_scoring:linear_scoring", {"models_means": "U [M,C,D]", "ubm": "obj:GMMMachine", "test_stats": ST, "test_channel_offsets": "U [K,C,D]", "frame_length_normalization": "false"}, True, (None,), "1 S [M,K]"),
@@ -54,10 +54,10 @@ ROOTS = {
     "fa.estimate_ux": ("factor_analysis:FactorAnalysisBase.estimate_ux", {"X": ST}, False, (False,), "U [F]"),
     "fa.create_UVD": ("factor_analysis:FactorAnalysisBase.create_UVD", {}, False, (None,), None),
     # ---- linear transforms -----------------------------------------------------------------------------------
-    "wccn.fit": ("wccn:WCCN.fit", {"X": "U [N,D]", "y": "list:N:*"}, False, (False, True), None),
-    "wccn.transform": ("wccn:WCCN.transform", {"X": "list:B:U [N,D]"}, False, (None,), "list:B:1 K0.5"),
-    "white.fit": ("whitening:Whitening.fit", {"X": "U [N,D]"}, False, (False, True), None),
-    "white.transform": ("whitening:Whitening.transform", {"X": "U [N,D]"}, False, (None,), "1"),
+    "wccn.fit": ("wccn:WCCN.fit", {"X": "U [N,D]", "y": "list:N:*"}, True, (False, True), None),
+    "wccn.transform": ("wccn:WCCN.transform", {"X": "list:K:U [N,D]"}, True, (None,), "list:K:1 K0.5 S-0.5"),
+    "white.fit": ("whitening:Whitening.fit", {"X": "U [N,D]"}, True, (False, True), None),
+    "white.transform": ("whitening:Whitening.transform", {"X": "U [N,D]"}, True, (None,), "1"),
 }
 
 _CACHE = {}
